@@ -58,12 +58,12 @@ CLAIMS = {
         technique='compression relation lifted from the AST (predicate factories -> formula templates, construction provenance) composed with the C02 encoder closed forms and the RVC decode/expansion oracle; exhaustive walk of the lifted regions',
         text='For each of the criteria rules and every operand tuple on which it is the first to fire, the halfword given by the derived encoder closed form is decoded and expanded by an independent RVC oracle and must have the architectural effect of the replaced instruction; '
              'regions lie inside the encoders\' accepted sets; replacing paths shift later labels by exactly 2; every c.* encoder re-validates what it masks; auipc pairs are evaluated consistently; round order. All literal operand values and register choices are covered, not sampled.',
-        note='Not decided: a compressed form chosen on a label-dependent immediate that changes when labels move afterwards. The walk enumerates the analysis\' own lifted formulas and closed forms; no repository code is executed. Trusted: CPython ast, bbverif comprel/bitdom/pathwalk, RVC oracle.'),
+        note='Rules that drop the immediate must test it label-independently (R4.8, found defect F11); rules that keep it are covered by C12 R12.7. The walk enumerates the analysis\' own lifted formulas and closed forms; no repository code is executed. Trusted: CPython ast, bbverif comprel/predlift/bitdom/pathwalk, RVC oracle.'),
     'C12': dict(
         category='other', design='DESIGN.md §4 C12',
-        technique='region-within-accepted-set on the lifted compression relation; str|int|Expr kind dataflow of constructor arguments; totality of predicates on item classes',
+        technique='region-within-accepted-set on the lifted compression relation; stability of every compression decision (label-free immediate or jump/branch target) on the lifted formulas; str|int|Expr kind dataflow of constructor arguments; totality of predicates on item classes',
         text='Decides the operand-independent ways -c can turn success into failure: a rule that manufactures an instruction its encoder refuses, a register-kinded field re-interpreted as an expression (wrong representation or environment), a predicate or construction reading a field its item class lacks, a criteria key without construction arm.',
-        note='Not decided (and dominant in the property\'s quantifier): failures caused by label motion after a compression decision. Trusted: CPython ast, bbverif comprel/bitdom.'),
+        note='Label motion after a compression decision is decided structurally (R12.7, found defect F12): a rule may look at an immediate only if it is label-free or the label target of a jump / branch; that such targets only move closer rests on the monotone-size rule of C20. Trusted: CPython ast, bbverif comprel/predlift/bitdom.'),
     'C20': dict(
         category='other', design='DESIGN.md §4 C20',
         technique='completeness of the lifted compression relation against the RVC oracle (exhaustive over legal operand tuples); per-path monotone-size rule; pipeline order',
@@ -77,7 +77,7 @@ CLAIMS = {
         note='Not decided: execution of the emitted code against an independent ISA semantics. Trusted: CPython ast, bbverif pathwalk, ISA pseudo table; verdicts of C01/C07 for the base instructions.'),
     'C18': dict(
         category='other', design='DESIGN.md §4 C18',
-        technique='typestate and ordering rules over symbolically enumerated paths of dfu.cli_main; protocol constants vs. DFU 1.1/DfuSe oracle; polynomial normal forms for addresses, slices and the padding identity',
+        technique='typestate and ordering rules over the ctrl_transfer events of the fully inlined, symbolically enumerated paths of dfu.cli_main (helper- and name-independent); protocol constants vs. DFU 1.1/DfuSe oracle; polynomial normal forms for addresses, slices and the padding identity',
         text='dfu.py has no tests at all. Decided statically: request numbers, DfuSe command bytes and payload formats; the GETSTATUS helper waits bwPollTimeout and returns (status, state); on every path no download-class request is issued while the previous one has not been polled out of dfuDNBUSY; '
              'erase loop before write loop over the same page range; addresses = 0x08000000 + page*page_size and chunk = slice at the same offset; len = q*S + r => padded length = pages*S with zeros only; size guard before the first request; GD32 variant table.',
         note='Not decided: that the device ends up holding those bytes under all busy/error schedules (needs a device model; model-checking family). Trusted: CPython ast, bbverif pathwalk/poly, DFU/DfuSe numbers in the oracle.'),
@@ -89,16 +89,16 @@ CLAIMS = {
         note='Not decided: device errors that surface only as USB stalls; errors during SET_ADDRESS. Trusted: CPython ast, bbverif pathwalk/poly.'),
     'C17': dict(
         category='other', design='DESIGN.md §4 C17',
-        technique='side-effect ordering (ASM / write-open / failing-exit events) on symbolically enumerated paths of asm.cli_main; def-use of the written values',
+        technique='side-effect ordering over the typed event stream (add_argument, parse_args, assemble, open, write, bin2hex, raise, try/except) of the fully inlined paths of asm.cli_main; option roles resolved through the add_argument events; label-line templates',
         text='On every path through cli_main no failing exit is reachable after a file has been opened for writing and assemble() precedes every write (no-clobber); the -o handle is binary and receives exactly the value returned by assemble once; '
              'the -l lines come from items() of the very dict passed as labels=; bin2hex runs after the binary is closed with int(hex_offset, 0); AssemblerError becomes a failing SystemExit and no handler swallows an error; -c/-i wiring.',
         note='Not decided: OS-level write failures between the files; correctness of intelhex.bin2hex. Trusted: CPython ast, bbverif pathwalk.'),
     'C15': dict(
         category='other', design='DESIGN.md §4 C15',
-        technique='exception-escape analysis over a repository-specific call graph (table-of-partials, closures, methods by name); Line-kind dataflow for AssemblerError arguments and item constructions',
+        technique='abstract interpretation of assemble() over the syntax tree (bbverif/absint.py: classes / callables a value may be, exceptions in flight and the handlers they cross, provenance tags of Line-carrying objects, user text vs program text) to a fixed point for compress False / True',
         text='Every explicit raise of a non-assembler exception and every struct/int() call fed with user data reachable from assemble() is followed along all call chains; each chain must cross a handler that converts it into AssemblerError(message, Line). '
              'Internal-invariant raises are discharged by class-flow / dispatch exhaustiveness; a lookup dominated by the matched rule\'s own predicates is discharged through the lifted relation. Every AssemblerError carries a Line; every item the parser or a pass builds carries the line of its source; Lines are created per physical line with the reading file\'s path and a 1-based number.',
-        note='Not decided: exceptions Python raises implicitly on malformed arity/syntax (listed as escape candidates); duplicate labels are never refused. Trusted: CPython ast, resolution rules of bbverif/callgraph.py.'),
+        note='Not decided: exceptions Python raises implicitly on malformed arity/syntax (listed as escape candidates); duplicate labels are never refused. Anything the interpreter does not model (unknown callee, lost line provenance, hand-kept line counters) ends with exit 2, never a finding. Trusted: CPython ast, transfer functions of bbverif/absint.py.'),
     'C16': dict(
         category='other', design='DESIGN.md §4 C16',
         technique='purity / determinism effect analysis over everything reachable from assemble() in a repository-specific call graph; positive fixture keeps zero-instance rules alive',
@@ -113,7 +113,7 @@ CLAIMS = {
         note='Trusted: struct refuses out-of-range values for standard sizes (library contract); Latin-1 contract of unicode_escape; CPython ast; bbverif pathwalk/prov.'),
     'C14': dict(
         category='other', design='DESIGN.md §4 C14',
-        technique='cwd-sensitivity effect analysis: provenance kinds (Resolved / UserGiven / RawToken) of every filesystem argument reachable from assemble(); splice-order rule on the reader loop; CLI abspath rule',
+        technique='cwd-sensitivity effect analysis: provenance kinds (Resolved / Dir / AdjDir / CwdDir / UserGiven / CliArgs / RawToken / Literal) solved as one fixed point over parameters, returns, attributes, closures and generators for every filesystem argument reachable from assemble(); splice rule on what each line contributes; CLI absoluteness rule',
         text='Only paths produced by the include search or given by the caller reach open/exists/getsize; os.getcwd() only on the source-string branch; the recursive read passes the resolved path, include=True and unchanged include_dirs; the directory of the including file is searched at every depth; '
              'included lines are spliced at the include line by extend, others appended once in order; the CLI makes input and -i directories absolute. Independence from the working directory is a property of which values can flow to filesystem calls, for all include trees.',
         note='Not decided: equality of the resulting binaries (follows from splice order and C16 purity, not re-proved); which directory wins for duplicate names. Trusted: CPython ast, kind rules of bbverif/prov.py.'),
@@ -125,7 +125,7 @@ CLAIMS = {
         note='Not decided: the arithmetic itself (delegated to Python eval; trusted) and what the regex tokenizer does to quotes, #, commas and parentheses inside a token (character literals) - value semantics of library string processing on particular inputs.'),
     'C13': dict(
         category='other', design='DESIGN.md §4 C13',
-        technique='table check of REGISTERS vs. ABI names; token-provenance dataflow for imm(reg) vs reg, imm; regex-AST queries (re._parser) for separator and comment patterns; def-use chain order in lex_tokens',
+        technique='table check of REGISTERS vs. ABI names; token-provenance dataflow for imm(reg) vs reg, imm; abstract values of the line text followed through re.sub / compiled patterns / partition / strip / split / comprehensions to the token list (regex ASTs via re._parser); numbering and hand-over rules; numeric-literal test vs int(., 0)',
         text='Decided in part: all documented register spellings map to the architectural number; both base+offset spellings reach the same constructor parameters by role for every load/store/jalr; the separator pattern consumes exactly runs of whitespace and commas; the comment pattern is removed first and the text stripped before splitting; '
              'blank lines are skipped without disturbing numbering.',
         note='Not decided: equality of whole binaries under arbitrary combinations of rewrites (interaction of string/error lexing with indentation and comments; integer forms only eval or only int(., 0) accepts). A lexer rewritten beyond the def-use rules yields ANALYSIS-ERROR, not a violation.'),
